@@ -21,17 +21,174 @@ def tol(prec, G=0.0, base=None, cr=1.0):
     return max(b, 1.1e-12 * math.exp(min(G, 40.0)) * max(1.0, cr / 1e3))
 
 
-def S():
-    from bldfm.solver import steady_state_transport_solver
+# --------------------------------------------------------------------------- the monitored call path
+#
+# Every solver call of the relation checks goes through `call`:
+#   * purity guard (vlib.purity): arguments snapshotted, in-place modification confirmed by a repeat with the same objects;
+#   * value-preserving re-spelling of the arguments, chosen once per case: containers (tuple / list / float64 or int64
+#     ndarray for domain, modes, meas_pt, levels; tuple / list for profiles), memory layout of the surface flux (C order,
+#     Fortran order, strided view), numpy scalars for halo / background.  The same spelled object is reused for equal
+#     values within a case (a user loop keeps its arrays).  No dtype is changed that would make numba compile a new kernel;
+#   * decoy pre-roll: in 30 % of the cases the first call is preceded, in the same process, by two to three solves that
+#     share the cheap identifying features of that call (cell / pad / mode counts, padded shape, geometry) and differ in what
+#     a too coarsely keyed memo or a recycled work array would miss (halo, cell size, footprint flag, interior/halo split of
+#     the same padded shape with a non-zero source, fewer modes, other profile values, a wider flux map with the same cell
+#     size).  Their results are discarded; state that leaks from them breaks the relation the case then evaluates.
 
-    return steady_state_transport_solver
+_CASE = {"rng": None, "spell": None, "first": True, "memo": {}, "decoys": 0}
+ARGN = ("srf_flx", "z", "profiles", "domain", "levels")
+
+
+def begin_case(case):
+    """Called by vlib.worker before every case."""
+    import zlib
+
+    seed = [int(case.get("seed", 0)) & 0xFFFFFFFF, zlib.crc32(repr(sorted((k, repr(v)) for k, v in case.items() if not k.startswith("_"))).encode())]
+    rng = np.random.default_rng(seed)
+    _CASE.update(rng=rng, first=True, memo={}, decoys=0)
+    _CASE["spell"] = dict(
+        domain=str(rng.choice(["tuple", "list", "ndarray"])),
+        modes=str(rng.choice(["tuple", "list", "ndarray"])),
+        meas_pt=str(rng.choice(["tuple", "list", "ndarray", "ndarray"])),
+        levels=str(rng.choice(["asis", "asis", "ndarray"])),
+        profiles=str(rng.choice(["tuple", "list"])),
+        srf_flx=str(rng.choice(["C", "C", "F", "strided"])),
+        scalars=str(rng.choice(["python", "numpy"])),
+        decoys=bool(rng.random() < 0.3),
+    )
+
+
+def _memo(key, make):
+    m = _CASE["memo"]
+    if key not in m:
+        m[key] = make()
+    return m[key]
+
+
+def _spell(kw):
+    sp = _CASE["spell"]
+    if sp is None:
+        return kw
+    kw = dict(kw)
+    from vlib import purity
+
+    for name in ("domain", "modes", "meas_pt"):
+        if name in kw and kw[name] is not None and sp[name] != "tuple":
+            vals = tuple(kw[name])
+            isint = name == "modes"
+            if sp[name] == "list":
+                kw[name] = list(vals)
+            else:
+                kw[name] = _memo((name, vals), lambda: np.array(vals, dtype=np.int64 if isint else np.float64))
+    if "levels" in kw and sp["levels"] == "ndarray" and np.ndim(kw["levels"]) == 1:
+        vals = tuple(int(v) for v in kw["levels"])
+        kw["levels"] = _memo(("levels", vals), lambda: np.array(vals, dtype=np.int64))
+    if sp["profiles"] == "list" and isinstance(kw.get("profiles"), tuple):
+        kw["profiles"] = list(kw["profiles"])
+    q = kw.get("srf_flx")
+    if isinstance(q, np.ndarray) and q.ndim == 2 and q.dtype == np.float64:
+        if sp["srf_flx"] == "F":
+            kw["srf_flx"] = np.asfortranarray(q)
+        elif sp["srf_flx"] == "strided":
+            big = np.full((q.shape[0] * 2, q.shape[1] * 2 + 1), np.nan)
+            big[::2, 1::2] = q
+            kw["srf_flx"] = big[::2, 1::2]
+    if sp["scalars"] == "numpy":
+        for name in ("halo", "srf_bg_conc"):
+            if isinstance(kw.get(name), float):
+                kw[name] = np.float64(kw[name])
+    purity._count(f"spelling:{sp['domain'][0]}{sp['modes'][0]}{sp['meas_pt'][0]}{sp['levels'][0]}{sp['profiles'][0]}{sp['srf_flx'][0]}{sp['scalars'][0]}")
+    return kw
+
+
+def _decoys(kw):
+    """Variants of the upcoming call that share its cheap identifying features (see the header comment)."""
+    rng = _CASE["rng"]
+    q = np.asarray(kw["srf_flx"], dtype=float)
+    ny, nx = q.shape
+    xmax, ymax = (float(v) for v in kw["domain"])
+    dx, dy = xmax / nx, ymax / ny
+    halo = kw.get("halo")
+    heff = max(xmax, ymax) if halo is None else float(halo)
+    px, py = int(heff / dx), int(heff / dy)
+    fp = bool(kw.get("footprint", False))
+    out = []
+
+    def dense(sh):
+        return rng.normal(size=sh) + 3.0
+
+    base = dict(kw)
+    if not fp:
+        base["srf_flx"] = dense((ny, nx))
+    # other interior / halo split of the same padded shape (earlier call with the wider interior and the other way round)
+    for d in (1, -1):
+        px2, py2 = px - d, py - d
+        nx2, ny2 = nx + 2 * d, ny + 2 * d
+        if px2 >= 0 and py2 >= 0 and nx2 >= 2 and ny2 >= 2:
+            h2 = max(px2 * dx, py2 * dy) * (1 + 1e-9) + 1e-9 * min(dx, dy)
+            if int(h2 / dx) == px2 and int(h2 / dy) == py2:
+                out.append(dict(base, srf_flx=dense((ny2, nx2)), domain=(dx * nx2, dy * ny2), halo=h2,
+                                meas_pt=tuple(kw.get("meas_pt", (0.0, 0.0)))))
+    # the same request with another halo / without one
+    out.append(dict(base, halo=0.0 if heff > 0 else float(2 * max(dx, dy))))
+    if halo is not None:
+        out.append(dict(base, halo=None) if (nx + 2 * int(max(xmax, ymax) / dx)) * (ny + 2 * int(max(xmax, ymax) / dy)) <= 200 * 200 else dict(base, halo=heff + max(dx, dy)))
+    # the other mode (footprint <-> dispersion) on identical geometry
+    out.append(dict(base, footprint=not fp, srf_flx=dense((ny, nx))))
+    # same counts, other cell size (lengths scaled, halo scaled with them)
+    s = float(rng.choice([0.5, 1.7, 3.0]))
+    out.append(dict(base, domain=(xmax * s, ymax * s), halo=None if halo is None else heff * s,
+                    meas_pt=tuple(float(v) * s for v in kw.get("meas_pt", (0.0, 0.0)))))
+    # fewer modes on the same padded grid
+    m = tuple(int(v) for v in kw.get("modes", (512, 512)))
+    nxe, nye = nx + 2 * px, ny + 2 * py
+    mx, my = min(m[0], nxe), min(m[1], nye)
+    if mx - 2 >= 2 and my - 2 >= 2 and not (nxe % 2 or nye % 2):
+        out.append(dict(base, modes=(mx - 2, my - 2)))
+    # other physics on the same grid
+    pr = [np.asarray(a, dtype=float) for a in kw["profiles"]]
+    out.append(dict(base, profiles=(pr[1] * 1.3 + 0.1, -pr[0] * 0.8, pr[2] * 1.4, pr[3] * 0.7, pr[4] * 1.2)))
+    # same cell size, halo and modes, wider flux map
+    out.append(dict(base, srf_flx=dense((ny, nx + 4)), domain=(dx * (nx + 4), ymax)))
+    k = int(rng.integers(2, 4))
+    return [out[i] for i in rng.permutation(len(out))[:k]]
+
+
+def call(**kw):
+    from bldfm.solver import steady_state_transport_solver
+    from vlib import purity
+
+    if _CASE["spell"] is not None and _CASE["first"]:
+        _CASE["first"] = False
+        if _CASE["spell"]["decoys"] and isinstance(kw.get("srf_flx"), np.ndarray) and not kw.get("cache"):
+            for d in _decoys(kw):
+                try:
+                    a = [d.pop(k) for k in ARGN]
+                    with np.errstate(all="ignore"):
+                        steady_state_transport_solver(*a, **d)
+                    _CASE["decoys"] += 1
+                    purity._count("decoy_solves")
+                except Exception:
+                    purity._count("decoy_solves_rejected")  # a decoy outside the accepted argument space (parity, size): not a verdict
+    kw = _spell(kw)
+    a = [kw.pop(k) for k in ARGN]
+    return purity.guarded(steady_state_transport_solver, "steady_state_transport_solver")(*a, **kw)
+
+
+def S():
+    """The solver with its positional signature, routed through the monitored call path."""
+
+    def solver(srf_flx, z, profiles, domain, levels, **kw):
+        return call(srf_flx=srf_flx, z=z, profiles=profiles, domain=domain, levels=levels, **kw)
+
+    return solver
 
 
 def solve(setup, q0, levels, **kw):
     """Call the real solver for set-up `setup` (vlib.gen.draw_setup)."""
     args = dict(modes=setup["modes"], halo=setup["halo"], precision=kw.pop("precision", "double"))
     args.update(kw)
-    grid, conc, flx = S()(q0, setup["z"], setup["profiles"], setup["domain"], levels, **args)
+    grid, conc, flx = call(srf_flx=q0, z=setup["z"], profiles=setup["profiles"], domain=setup["domain"], levels=levels, **args)
     return grid, np.asarray(conc), np.asarray(flx)
 
 
